@@ -122,7 +122,11 @@ impl KRange {
             }
         };
 
-        let end = if inclusive { end + 1 } else { end };
+        let end = if inclusive {
+            end.saturating_add(1)
+        } else {
+            end
+        };
         start..end.max(start)
     }
 
@@ -167,7 +171,8 @@ impl KRange {
     pub fn size(&self) -> Option<usize> {
         if self.is_bounded() {
             let range = self.as_bounded_range();
-            Some(((range.end).max(range.start) - range.start) as usize)
+            let size = (range.end).max(range.start) as i128 - range.start as i128;
+            Some(usize::try_from(size).unwrap_or(usize::MAX))
         } else {
             None
         }
